@@ -14,7 +14,7 @@ func Validators(tier string) Family {
 		// bounds that are not small positive integers: fractions, negatives, zero, large values
 		"max=9.5", "min=0.5", "gt=-1.5", "gte=-3", "lt=0", "lte=2.25", "min=-2,max=2.5", "max=0", "min=1000000", "len=0", "maxItems=0", "eq=5", "ne=3"}
 	types := []struct{ name, goType, decl string }{
-		{"string", "string", ""}, {"int", "int", ""}, {"float64", "float64", ""}, {"bool", "bool", ""}, {"[]string", "[]string", ""},
+		{"string", "string", ""}, {"int", "int", ""}, {"float64", "float64", ""}, {"bool", "bool", ""}, {"[]string", "[]string", ""}, {"[]byte", "[]byte", ""},
 		{"enum-ref", "VE§", "type VE§ string\n\nconst (\n\tVE§A VE§ = \"a\"\n\tVE§B VE§ = \"b\"\n)\n"},
 		{"struct-ref", "VS§", "type VS§ struct {\n\tQ int `json:\"q\"`\n}\n"},
 	}
@@ -28,6 +28,9 @@ func Validators(tier string) Family {
 					continue
 				}
 				if site == "form" && t.name == "[]string" {
+					continue
+				}
+				if t.name == "[]byte" && site != "field" && site != "body" {
 					continue
 				}
 				if (strings.HasPrefix(r, "enum=") || r == "oneof=a b") && t.name != "string" {
